@@ -894,12 +894,13 @@ pub fn gen_case(tier: Tier, seed: u64, idx: u64) -> Case {
     if rng.chance(1, 25) {
         // UTF-16 input goes through the transcoding decoder
         let s = String::from_utf8_lossy(&bytes).to_string();
-        let mut v = vec![0xFF, 0xFE];
+        let be = rng.chance(1, 2);
+        let mut v = if be { vec![0xFE, 0xFF] } else { vec![0xFF, 0xFE] };
         for u in s.encode_utf16() {
-            v.extend_from_slice(&u.to_le_bytes());
+            v.extend_from_slice(&if be { u.to_be_bytes() } else { u.to_le_bytes() });
         }
         bytes = v;
-        origin.push("utf16le".into());
+        origin.push(if be { "utf16be" } else { "utf16le" }.into());
     }
     if rng.chance(2, 3) {
         corrupt(&mut bytes, &mut rng, &mut origin);
